@@ -51,6 +51,8 @@ func main() {
 		runC11(r, rng, thorough)
 	case "C08":
 		runC08(r, rng, thorough)
+	case "C10":
+		runC10(r, rng, thorough)
 	case "C14":
 		runC14(r, rng, thorough)
 	case "C17":
